@@ -22,8 +22,22 @@ ALLKEYS = ('idpA', 'idpA2', 'idpAenc', 'idpB', 'spX', 'spXenc1', 'spXenc2', 'spY
 
 # ------------------------------------------------------------------ (a) emit
 
-def idp_for(enc_layout):
-    k = ('idp', enc_layout)
+def _reject_cert(cert):
+    return False
+
+
+def idp_for(enc_layout, variant=None):
+    k = ('idp', enc_layout) if variant is None else ('idp', enc_layout, variant)
+    if variant is not None and k not in _c:
+        base_layout = enc_layout
+        keys = [('spX', 'signing')] + [(n, 'encryption') for n in {'one': ['spXenc1'], 'two': ['spXenc1', 'spXenc2'], 'none': []}[base_layout]]
+        opts = {'cfg-encrypt': {'encrypt_assertion': True},
+                'verifier-rejects': {'verify_encrypt_cert_advice': _reject_cert, 'verify_encrypt_cert_assertion': _reject_cert},
+                'advice-verifier-rejects': {'verify_encrypt_cert_advice': _reject_cert}}[variant]
+        if variant == 'verifier-rejects':
+            _c[k] = world.make_idp(TMP[0], [world.sp_md(keys=tuple(keys))], **opts)
+        else:
+            _c[k] = world.make_idp(TMP[0], [world.sp_md(keys=tuple(keys))], **opts)
     if k not in _c:
         keys = [('spX', 'signing')] + [(n, 'encryption') for n in {'one': ['spXenc1'], 'two': ['spXenc1', 'spXenc2'], 'none': [], 'no-use': [], 'other-role': []}[enc_layout]]
         if enc_layout == 'no-use':
@@ -61,6 +75,15 @@ def emit_cells(thorough):
     # the attribute authority's entry point (AttributeQuery answers) takes the same encryption options
     for layout, sr, sa, selfc in itertools.product(('one', 'two', 'no-use', 'other-role'), (False, True), (False, True), (True,)):
         out.append(dict(t='emit', layout=layout, sr=sr, sa=sa, enc=True, adv=False, selfc=selfc, percert=None, seq=False, via='attribute-response'))
+    # encryption switched on in the IdP's configuration, the caller says nothing about it
+    for layout, sr, sa, pefim in itertools.product(('one', 'two'), (False, True), (False, True), (False, True)):
+        out.append(dict(t='emit', layout=layout, sr=sr, sa=sa, enc=None, adv=False, selfc=True, percert=None, seq=False, pefim=pefim, variant='cfg-encrypt'))
+    # a verifier for request-supplied certificates is configured and rejects the certificate: nothing is encrypted for it
+    for layout, sr, adv, pefim in itertools.product(('one', 'none'), (False, True), (False, True), (False, True)):
+        out.append(dict(t='emit', layout=layout, sr=sr, sa=True, enc=True, adv=adv, selfc=True, percert='spY', seq=False, pefim=pefim, variant='verifier-rejects'))
+    for layout, sr, sa, adv in itertools.product(('one', 'none'), (False, True), (False, True), (False, True)):
+        # only the advice part is encrypted (PEFIM), and only its verifier is configured
+        out.append(dict(t='emit', layout=layout, sr=sr, sa=sa, enc=False, adv=adv, selfc=True, percert='spY', seq=False, pefim=True, variant='advice-verifier-rejects'))
     # sequences on one long-lived Server: metadata certificate first, then a per-request certificate (and reverse)
     for first, second in ((None, 'spXenc2'), ('spXenc2', None), ('spXenc2', 'spY'), (None, None)):
         out.append(dict(t='emit', layout='one', sr=True, sa=True, enc=True, adv=False, selfc=True, percert=second, seq=True, first=first))
@@ -84,11 +107,13 @@ def emit_once(idp, c, percert):
     nid = saml.NameID(text=MARK['subject'], format=saml.NAMEID_FORMAT_PERSISTENT)
     kw = dict(sign_response=c['sr'], sign_assertion=c['sa'], encrypt_assertion=c['enc'], encrypted_advice_attributes=c['adv'],
               encrypt_assertion_self_contained=c['selfc'])
+    if c['enc'] is None:
+        kw.pop('encrypt_assertion')          # left to the configuration
     if c.get('pefim'):
         kw['pefim'] = True
     if percert:
         kw['encrypt_cert_assertion'] = world.cert_b64(percert)
-        if c['adv']:
+        if c['adv'] or c.get('variant') == 'advice-verifier-rejects':
             kw['encrypt_cert_advice'] = world.cert_b64(percert)
     if c.get('via') == 'attribute-response':
         kw.pop('encrypted_advice_attributes')
@@ -101,7 +126,7 @@ def evaluate_emit(c):
     env.reset_rng()
     if c['seq']:
         _c.pop(('idp', c['layout']), None)
-    idp = idp_for(c['layout'])
+    idp = idp_for(c['layout'], c.get('variant'))
     try:
         if c['seq']:
             emit_once(idp, c, c['first'])
@@ -112,6 +137,13 @@ def evaluate_emit(c):
         return {'outcome': 'raised:%s' % type(e).__name__, 'bad': None}
     if c['seq']:
         _c.pop(('idp', c['layout']), None)
+    if c.get('variant') in ('verifier-rejects', 'advice-verifier-rejects'):
+        # whatever comes out must not be readable with the key of the rejected certificate
+        d2, _f = oracle.decrypt_all(text, [c['percert']])
+        leaked = [k for k in ('subject', 'attr_name', 'attr_value', 'given') if MARK[k] in d2 and MARK[k] not in text]
+        return {'outcome': 'emitted-despite-rejected-certificate', 'bad': 'encrypted-for-a-certificate-the-configured-verifier-rejects' if leaked else None}
+    if c.get('variant') == 'cfg-encrypt':
+        c = dict(c, enc=True)
     has_cert = c['layout'] != 'none' or c['percert']
     recipient = c['percert'] or {'one': 'spXenc1', 'two': 'spXenc1', 'none': None, 'no-use': 'spXenc1', 'other-role': 'spXenc1'}[c['layout']]
     main_encrypted = c['enc'] and has_cert
